@@ -53,6 +53,66 @@ class PathState(object):
         return s
 
 
+def enum_indicator(prog, ty_ix):
+    """The crate-local two-variant fieldless enum a type is (`RefGain { FirstReference, AdditionalReference }` in place
+    of a bool), or None."""
+    d = prog.adt_of(ty_ix)[0]
+    a = prog.adts.get(d)
+    if prog.types[ty_ix].get("k") != "adt" or a is None or a.get("kind") != "Enum" or len(a["variants"]) != 2:
+        return None
+    if any(v["fields"] for v in a["variants"]):
+        return None
+    return d
+
+
+def first_variant(prog, tgt):
+    """For an increment primitive that answers with a two-variant enum: the index of the variant it answers when the
+    count was zero before the increment (`match *count { 0 => A, _ => B }` / `if *count == 0 { A } else { B }`)."""
+    from . import cfgutil as cu
+    d = enum_indicator(prog, tgt.locals[0])
+    if d is None:
+        return None
+
+    def variant_assigned_from(start, stop):
+        """variant index of the enum aggregate built on the way from block `start` (not passing `stop`)."""
+        seen = set()
+        work = [start]
+        found = set()
+        while work:
+            x = work.pop()
+            if x in seen or x == stop:
+                continue
+            seen.add(x)
+            hit = False
+            for st in tgt.stmts(x):
+                if st["k"] == "assign" and st["rv"]["k"] == "agg" and st["rv"].get("def") == d:
+                    found.add(st["rv"].get("variant"))
+                    hit = True
+            if not hit:
+                work.extend(tgt.succs(x))
+        return found
+    for sw in tgt.normal_blocks():
+        t = tgt.blocks[sw]["term"]
+        if t["k"] != "switch":
+            continue
+        listed = dict((v, x) for v, x in t["targets"])
+        c = cu.eq_edges(tgt, sw)
+        zero_t = other_t = None
+        if c is not None:
+            a, b_, t_eq, t_ne = c
+            if any("const" in o and o["const"].get("v") == 0 for o in (a, b_)):
+                zero_t, other_t = t_eq, t_ne
+        elif 0 in listed and len(listed) == 1:
+            zero_t, other_t = listed[0], t["otherwise"]
+        if zero_t is None or other_t is None:
+            continue
+        va = variant_assigned_from(zero_t, other_t)
+        vb = variant_assigned_from(other_t, zero_t)
+        if len(va) == 1 and len(vb) == 1 and va != vb:
+            return list(va)[0]
+    return None
+
+
 class ApplyBody(object):
     def __init__(self, ctx, body):
         self.ctx = ctx
@@ -95,6 +155,10 @@ class ApplyBody(object):
             return None
         rt = prog.ty_str(tgt.locals[0])
         if rt == "bool":
+            return "inc"
+        if enum_indicator(prog, tgt.locals[0]) is not None and first_variant(prog, tgt) is not None:
+            self.inc_enums = getattr(self, "inc_enums", {})
+            self.inc_enums[enum_indicator(prog, tgt.locals[0])] = first_variant(prog, tgt)
             return "inc"
         if rt.startswith("std::result::Result<std::option::Option<"):
             return "dec"
@@ -254,6 +318,12 @@ class ApplyBody(object):
                 elif d == "std::option::Option":
                     val = v if v != "otherwise" else (0 if 1 in edges else 1)
                     out[tgt] = (origin, "some" if val == 1 else "none")
+                elif d in getattr(self, "inc_enums", {}):
+                    # the two-variant answer of the increment primitive: "first reference" or not
+                    listed = [x for x in edges if x != "otherwise"]
+                    val = v if v != "otherwise" else (1 - listed[0] if listed in ([0], [1]) else None)
+                    if val is not None:
+                        out[tgt] = (origin, "true" if val == self.inc_enums[d] else "false")
             return out
         if c[0] in ("bool", "call", "cmp"):
             if c[0] == "call":
